@@ -136,9 +136,10 @@ def rule_murmur(ctx, repo):
     # the length is mixed in modulo 2^32
     found = False
     for n in walk_no_nested(fi.node):
-        if isinstance(n, ast.AugAssign) and isinstance(n.op, ast.BitXor) and 'len(%s)' % datap in norm(n.value):
+        if isinstance(n, ast.AugAssign) and isinstance(n.op, ast.BitXor) and norm(n.target).startswith('h') \
+                and 'len(%s)' % datap in norm(common.resolved(fi, n.value, repo)) and not any(isinstance(x, ast.Subscript) for x in ast.walk(n.value)):
             found = True
-            v = n.value
+            v = common.resolved(fi, n.value, repo)
             ok = norm(v) == 'len(%s)' % datap
             if isinstance(v, ast.BinOp) and isinstance(v.op, ast.BitAnd):
                 for a, b in ((v.left, v.right), (v.right, v.left)):
@@ -222,14 +223,20 @@ def rule_caps(ctx, repo, ci):
         if n is None:
             r.undecided('cap:%s' % slot, init.site, 'no store of %s in __init__' % slot)
             continue
-        ub = upper(repo, init, n.value, env)
+        ub = upper(repo, init, common.resolved(init, n.value, repo), env)
         r.check(ub <= cap, 'cap:%s' % slot, common.site_of(init, n), 'upper bound %s <= %s' % (ub, cap),
                 'the value stored in %s can reach %s (cap %s): `%s`' % (slot, ub, cap, norm(n.value)[:90]))
     w = repo.lookup_method(ci, 'IsWithinSizeConstraints')
     if w is not None:
-        rets = [norm(n.value) for n in walk_no_nested(w.node) if isinstance(n, ast.Return)]
-        r.check(rets == ['len(self.vData) <= self.MAX_BLOOM_FILTER_SIZE and self.nHashFuncs <= self.MAX_HASH_FUNCS'], 'IsWithinSizeConstraints', w.site,
-                'both limits, inclusive', 'IsWithinSizeConstraints returns %s' % rets)
+        from ..rules import equiv_folded as _ef
+        e_ = common.return_expr(w, inline_locals=True)
+        v_ = _ef(e_, repo, w.module, 'len(self.vData) <= 36000 and self.nHashFuncs <= 50', cls=ci) if e_ is not None else None
+        if v_ is True:
+            r.ok('IsWithinSizeConstraints', w.site, 'both limits, inclusive')
+        elif v_ is False:
+            r.violated('IsWithinSizeConstraints', w.site, 'IsWithinSizeConstraints returns `%s`; reference: len(vData) <= 36000 and nHashFuncs <= 50' % norm(e_))
+        else:
+            r.undecided('IsWithinSizeConstraints', w.site, 'IsWithinSizeConstraints returns `%s`' % (norm(e_) if e_ is not None else None))
 
 
 def _body(fi):
@@ -260,11 +267,22 @@ def rule_siblings(ctx, repo, ci):
                         out['bit'] = canon(m.slice)
             if isinstance(n, ast.If) and 'isinstance' in norm(n.test):
                 out['convert'] = norm(n.test) + ' -> ' + norm(n.body)
+            if isinstance(n, ast.Assign) and isinstance(n.value, ast.IfExp) and 'isinstance' in norm(n.value.test) and norm(n.value.orelse) == norm(n.targets[0]):
+                # elem = elem.serialize() if isinstance(elem, COutPoint) else elem
+                out['convert'] = norm(n.value.test) + ' -> ' + '%s = %s' % (norm(n.targets[0]), norm(n.value.body))
         tests = [norm(n.test) for n in fi.node.body if isinstance(n, ast.If)]
         out['shortcuts'] = [t for t in tests if 'isinstance' not in t]
         return out
     a, b = facts(ins), facts(con)
-    for k in ('range', 'index', 'byte', 'bit', 'convert', 'shortcuts'):
+    from ..rules import equiv as _eq, canon_arith as _ca
+    for f_ in (a, b):
+        if f_.get('range') == 'range(0, self.nHashFuncs)':
+            f_['range'] = 'range(self.nHashFuncs)'
+        f_['early'] = ' or '.join('(%s)' % t for t in f_['shortcuts']) or 'False'
+    same_sc = _eq(a['early'], b['early'])
+    r.check(same_sc is True, 'agree:shortcuts', ins.site, 'shortcuts: %s' % a['early'],
+            'insert and contains disagree on shortcuts: insert leaves early when `%s`, contains when `%s` (an inserted element can then be reported as absent)' % (a['early'], b['early']))
+    for k in ('range', 'index', 'byte', 'bit', 'convert'):
         r.check(a.get(k) == b.get(k) and a.get(k) is not None, 'agree:%s' % k, ins.site, '%s: %s' % (k, a.get(k)),
                 'insert and contains disagree on %s: insert uses `%s`, contains uses `%s` (an inserted element can then be reported as absent)' % (k, a.get(k), b.get(k)))
     iv = a.get('idxvar', 'nIndex')
@@ -273,10 +291,24 @@ def rule_siblings(ctx, repo, ci):
     r.check(a.get('byte') == '%s >> 3' % iv and a.get('bit') in ('BitAnd(0x7,%s)' % iv,), 'schedule:byte-bit', ins.site, 'byte index >> 3, bit index & 7',
             'bit addressing is byte `%s` / bit `%s`, BIP37: vData[n >> 3] bit (n & 7)' % (a.get('byte'), a.get('bit')))
     full = 'len(self.vData) == 1 and self.vData[0] == 255'
+    ref_early = 'len(self.vData) == 0 or (%s)' % full
     for nm, f in (('insert', a), ('contains', b)):
-        sc = [t for t in f['shortcuts'] if 'vData[0]' in t]
-        r.check(sc == [full], 'full-filter-shortcut:%s' % nm, ins.site if nm == 'insert' else con.site, full,
-                '%s treats the filter as full when `%s`; only the single byte 0xff is the match-everything filter' % (nm, sc))
+        v_ = _eq(f['early'], ref_early, domain={'self.vData[0]': (0, 255)})
+        if v_ is True:
+            r.ok('full-filter-shortcut:%s' % nm, ins.site if nm == 'insert' else con.site, full)
+        elif v_ is False:
+            r.violated('full-filter-shortcut:%s' % nm, ins.site if nm == 'insert' else con.site,
+                       '%s leaves early when `%s`; the shortcuts are: empty filter, or the single byte 0xff (the match-everything filter) - they differ at %s' % (nm, f['early'], _eq.witness))
+        else:
+            r.undecided('full-filter-shortcut:%s' % nm, ins.site if nm == 'insert' else con.site, '%s leaves early when `%s`' % (nm, f['early']))
+    # insert writes into vData in place: every constructor must store a mutable byte array there
+    for f_ in [m_ for m_ in ci.methods.values()]:
+        for n in walk_no_nested(f_.node):
+            if isinstance(n, ast.Assign) and len(n.targets) == 1 and isinstance(n.targets[0], ast.Attribute) and n.targets[0].attr == 'vData':
+                v_ = common.resolved(f_, n.value, repo)
+                okb = isinstance(v_, ast.Call) and norm(v_.func) == 'bytearray'
+                r.check(okb, 'vData-mutable:%s' % f_.name, common.site_of(f_, n), 'vData is a bytearray',
+                        '%s stores `%s` in vData: insert() sets bits in place (vData[i] |= mask), which fails on an immutable bytes object - a filter read from the wire could not be extended' % (f_.name, norm(v_)[:80]))
     # insert sets, contains tests
     sets = [n for n in walk_no_nested(ins.node) if isinstance(n, ast.AugAssign) and isinstance(n.op, ast.BitOr) and norm(n.target).startswith('self.vData[')]
     r.check(len(sets) == 1, 'insert:sets-bit', ins.site, 'vData[byte] |= mask', 'insert does not set the bit with |=')
@@ -309,9 +341,10 @@ def rule_guard(ctx, repo, ci):
             r.undecided('%s:no-call' % nm, fi.site, 'no bloom_hash call found')
             continue
         ok = True
+        from ..escape import implied_at
         for c in calls:
             f = mf.at.get(id(c))
-            if f is None or 'nonempty' not in f:
+            if (f is None or 'nonempty' not in f) and implied_at(repo, fi, c, 'len(self.vData) > 0') is not True:
                 ok = False
                 r.violated('%s:modulo-guard' % nm, common.site_of(fi, c), '%s reaches bloom_hash (modulo len(vData)*8) without an emptiness guard: a filter with empty data, as can arrive from the wire, raises ZeroDivisionError' % nm)
         if ok:
@@ -319,4 +352,16 @@ def rule_guard(ctx, repo, ci):
         empties = [(k, n) for k, n, f in mf.exits if 'empty' in f and k == 'return']
         if nm == 'contains':
             good = empties and all(norm(n.value) == 'True' for k, n in empties)
+            if not good:
+                # any spelling of the shortcut: the early `return True` paths (those that leave before the bit loop) must
+                # cover the empty filter
+                from ..rules import outcome_formula, equiv as _eq
+
+                def classify(p):
+                    looped = any(isinstance(s_, (ast.For, ast.While)) for s_ in p.stmts())
+                    if p.end == 'return' and not looped and p.endnode.value is not None and repo.fold(p.endnode.value, fi.module) is True:
+                        return 'early-true'
+                    return 'other'
+                oc = outcome_formula(repo, fi, classify) or {}
+                good = _eq('not (len(self.vData) == 0) or (%s)' % oc.get('early-true', 'False'), 'True') is True
             r.check(bool(good), 'contains:empty-matches-all', fi.site, 'empty filter matches every element', 'contains does not return True for an empty filter')
